@@ -16,7 +16,7 @@ COQ_REQUIRE = "C17.Run"
 SANITIZE = True
 WORKER_DEATH_IS_RESULT = True
 CASE_TIMEOUT = 60
-SHARD = 12
+SHARD = 20
 
 # model parameters: True = the code as it is now (model of record, after the repairs e85352e users, a87b45e ionice,
 # 301715a ethtool speed, 0d52d5b disk_partitions); False = the legacy variant of the model, only for trial runs against a
@@ -60,6 +60,14 @@ EXHAUSTIVE = {"quick": "argument classes x entry points: full product for one- a
               "thorough": "argument classes x entry points: full product incl. proc_ioprio_set (pid x ioclass x iodata) and ionice(ioclass, value)"}
 
 W_LINE, W_ID, W_USER, W_HOST = 32, 4, 32, 256
+
+
+def gen_tables(impl_dir, out_dir):
+    """Facts of the C sources that thread safety rests on (regions without the GIL and the calls inside them, modifiable
+    statics), regenerated from the tree under check into coq/Gen/C17_Tables.v; C17_gil_free_regions_safe and
+    C17_no_shared_mutable_state are proved about the generated tables."""
+    from props import _c17_csrc
+    _c17_csrc.write(impl_dir, out_dir)
 
 
 # ------------------------------------------------------------------ generators
@@ -260,7 +268,7 @@ def _entry_cases(rng, tier):
     add("proc_cpu_affinity_set", [_pi(0), {"l": []}, _pi(0)])
     trip = [(p, c, d) for p in SAFE_PIDS for c in IOCLASSES + [None] for d in IODATA + [None]]
     if tier != "thorough":
-        trip = [(p, c, d) for (p, c, d) in trip if p == _pi(0) or rng.random() < 0.08]
+        trip = [(p, c, d) for (p, c, d) in trip if (p == _pi(0) and (rng.random() < 0.5 or d in (0, None))) or rng.random() < 0.04]
     for p, c, d in trip:
         add("proc_ioprio_set", [p, _pi(c) if c is not None else {"n": None}, _pi(d) if d is not None else _ps("x")])
     add("proc_ioprio_set", [_pi(0), _pi(2)])
@@ -372,6 +380,17 @@ def _seq_cases(rng, n):
     return out
 
 
+def _threads_cases(rng, tier):
+    """2-4 free-running threads overlapping inside the same entry point: disk_partitions() on the same and on different
+    mounts files of 200-400 entries (cext level and public API), users() on one utmp file, the NIC ioctls / net_if_stats()
+    mixed with failing calls.  Every call must return the sequential answer for ITS input."""
+    out = []
+    for k in range({"quick": 1, "thorough": 4, "search": 1}[tier]):
+        out.append({"kind": "threads", "cls": "threads", "seed": rng.randrange(1 << 30), "nthreads": rng.choice([3, 4]) if k == 0 else rng.choice([2, 3, 4]),
+                    "entries": rng.choice([200, 300, 400]), "budget": 3.0 if tier != "thorough" else 6.0})
+    return out
+
+
 def _sa_term(tok):
     import ipaddress
     if tok == "-":
@@ -450,8 +469,8 @@ def _live_ifaces():
 
 
 def gen_cases(rng, tier):
-    n_utmp = {"quick": 140, "thorough": 1500, "search": 250}[tier]
-    n_mnt = {"quick": 110, "thorough": 1200, "search": 250}[tier]
+    n_utmp = {"quick": 90, "thorough": 1500, "search": 250}[tier]
+    n_mnt = {"quick": 75, "thorough": 1200, "search": 250}[tier]
     cases = []
     # ---- login records
     cases.append({"kind": "utmp", "cls": "trivial", "recs": []})
@@ -512,7 +531,8 @@ def gen_cases(rng, tier):
     for hi, lo, dup in [(0, 0, 255), (0, 1000, 1), (0, 10, 0), (65535, 65535, 255), (32767, 65535, 1), (32768, 0, 1), (1, 34464, 1), (0, 1000, 7)]:
         cases.append({"kind": "speed", "cls": "speed", "hi": hi, "lo": lo, "duplex": dup})
     cases.extend(_ifaddrs_cases(rng, {"quick": 10, "thorough": 150, "search": 20}[tier]))
-    cases.extend(_seq_cases(rng, {"quick": 8, "thorough": 120, "search": 15}[tier]))
+    cases.extend(_seq_cases(rng, {"quick": 5, "thorough": 120, "search": 15}[tier]))
+    cases.extend(_threads_cases(rng, tier))
     if tier != "search":
         cases.extend(_entry_cases(rng, tier))
         cases.extend(_live_ifaces())
@@ -567,6 +587,12 @@ def coq_term(case):
         return "run_entry %s %s %s" % (G.bo(FIXED_IOPRIO), ENTRY_COQ[case["ep"]], G.lst([_pyval(a) for a in case["args"]]))
     if k == "ionice":
         return "run_ionice %s 0 %s %s" % (G.bo(FIXED_IOPRIO), G.z(case["ioclass"]), G.z(case["value"] or 0))
+    if k == "threads":
+        import random as _r
+        r = _r.Random(case["seed"])
+        n = case["nthreads"]
+        sched = [r.randrange(n) for _ in range(40)]
+        return "run_threads %s %s" % (G.z(n), G.lst(["%d%%nat" % i for i in sched]))
     if k == "seq":
         calls = [st for st in case["steps"] if st["op"] == "call"]
         return "run_seq %s %s" % (G.bo(FIXED_IOPRIO), G.lst(["(%s, %s)" % (ENTRY_COQ[c["ep"]], G.lst([_pyval(a) for a in c["args"]])) for c in calls]))
@@ -602,6 +628,8 @@ def coq_struct(case, raw):
     if k in ("entry", "ionice"):
         os_reached = isinstance(raw, dict) and raw.get("t") == "Os"
         return {"cres": raw, "model": None if os_reached else raw, "spec": None}
+    if k == "threads":
+        return {"sim": raw, "model": None, "spec": None}
     if k == "seq":
         return {"cres": raw, "model": None, "spec": None}
     if k == "ifaddrs":
@@ -707,6 +735,15 @@ def judge(case, coq, impl):
         return Verdict("skip", str(impl.get("a")))
     if k in ("entry", "ionice"):
         return _judge_call(case.get("ep"), coq["cres"], impl)
+    if k == "threads":
+        if coq["sim"] != [True, False]:
+            return Verdict("corr", "interleaving model: GIL variant consistent / no-GIL variant consistent = %s (expected [True, False])" % (coq["sim"],))
+        if _is_abort(impl) or not isinstance(impl, dict) or "bad" not in impl:
+            return Verdict("violation", "crash / sanitizer abort with threads inside the extension: %s" % (str(impl)[:400],))
+        if impl["bad"]:
+            return Verdict("violation", "with %d threads overlapping inside the extension %d of %d calls did not return the single-threaded answer "
+                           "for their own input; first: %s" % (case["nthreads"], len(impl["bad"]), impl["calls"], impl["bad"][0]))
+        return Verdict("ok")
     if k == "seq":
         if _is_abort(impl) or not isinstance(impl, dict) or "seq" not in impl:
             return Verdict("violation", "crash / sanitizer abort in a sequence of calls: %s" % (str(impl)[:400],))
@@ -867,6 +904,91 @@ def impl_run(case, coq, env):
         def call():
             p = psutil.Process()
             return _outcome(lambda: p.ionice(case["ioclass"], case["value"]), lambda v: None if v is None else T("Some", repr(v)[:80]))
+        return _iso(call)
+    if k == "threads":
+        import ctypes
+        import random as _r
+        import sys
+        import threading
+        import time
+        r = _r.Random(case["seed"])
+        n = case["nthreads"]
+        tdir = os.path.join(work, "thr")
+        os.makedirs(os.path.join(tdir, "proc", "self"), exist_ok=True)
+        # mounts files: threads 0 and 1 share one file, the others have their own; entries differ in every field
+        files = []
+        for t in range(n):
+            if t == 1:
+                files.append(files[0])
+                continue
+            path = os.path.join(tdir, "mounts%d" % t)
+            with open(path, "wb") as f:
+                for i in range(case["entries"] + 17 * t):
+                    f.write(b"/dev/t%dd%d /mnt/t%d/%d fs%dx%d rw,thread=%d,entry=%d,%s 0 0\n" % (t, i, t, i, t, i % 7, t, i, b"o" * (i % 40)))
+            files.append(path)
+        with open(os.path.join(tdir, "proc", "filesystems"), "wb") as f:
+            f.write(b"\text4\nnodev\tproc\n")
+        os.replace(files[0], os.path.join(tdir, "proc", "self", "mounts"))
+        files[0] = files[1] = os.path.join(tdir, "proc", "self", "mounts")
+        rec = struct.pack("<hxxi32s4s32s256s4s4si4s16s20s", 7, 4242, b"pts/3", b"ts/3", b"alice", b"example.org", b"", b"", 1700000000, b"", b"", b"")
+        utmp = os.path.join(tdir, "utmp")
+        with open(utmp, "wb") as f:
+            f.write(rec * 50)
+        live = [c["name"] for c in _live_ifaces()] or ["lo"]
+
+        def call():
+            psutil.PROCFS_PATH = os.path.join(tdir, "proc")      # only disk_partitions() reads through it here
+            assert ctypes.CDLL(None).utmpname(utmp.encode()) == 0
+            jobs = {}          # name -> function of the thread number
+            for t in range(n):
+                jobs["cext.disk_partitions(file %d)" % t] = (lambda t=t: repr(cext.disk_partitions(files[t])))
+            jobs["psutil.disk_partitions(all=True)"] = lambda: repr(psutil.disk_partitions(all=True))
+            jobs["psutil.users()"] = lambda: repr(psutil.users())
+            for nm in live[:2]:
+                jobs["net_if_mtu(%s)" % nm] = lambda nm=nm: repr(cext_posix.net_if_mtu(nm))
+                jobs["net_if_flags(%s)" % nm] = lambda nm=nm: repr(cext_posix.net_if_flags(nm))
+            jobs["net_if_mtu(ghost0)"] = lambda: _outcome(lambda: cext_posix.net_if_mtu("ghost0"), repr)
+
+            expected = {k: fn() for k, fn in jobs.items()}       # single-threaded answers, before any thread exists
+            names = sorted(jobs)
+            plan = []                                             # per thread: its own file mostly, plus the shared jobs
+            for t in range(n):
+                mine = ["cext.disk_partitions(file %d)" % t] * 6 + ["psutil.disk_partitions(all=True)"] * 2 + [x for x in names if not x.startswith("cext.")]
+                plan.append(mine)
+            bad, count = [], [0]
+            lock = threading.Lock()
+            deadline = time.monotonic() + case["budget"]
+            start = threading.Barrier(n)
+
+            def worker(t):
+                rr = _r.Random(case["seed"] * 31 + t)
+                start.wait()
+                it = 0
+                while time.monotonic() < deadline and it < 400:
+                    it += 1
+                    name = rr.choice(plan[t])
+                    try:
+                        got = jobs[name]()
+                    except BaseException as e:  # noqa
+                        got = "raised %s: %s" % (type(e).__name__, str(e)[:80])
+                    with lock:
+                        count[0] += 1
+                        if got != expected[name] and len(bad) < 20:
+                            exp = expected[name]
+                            i = next((j for j in range(min(len(got), len(exp))) if got[j] != exp[j]), min(len(got), len(exp)))
+                            bad.append("thread %d, call %d, %s: answer differs from the single-threaded one at character %d: got ...%s... expected ...%s..."
+                                       % (t, it, name, i, got[max(0, i - 60):i + 80], exp[max(0, i - 60):i + 80]))
+            old = sys.getswitchinterval()
+            sys.setswitchinterval(1e-5)
+            try:
+                ths = [threading.Thread(target=worker, args=(t,)) for t in range(n)]
+                for th in ths:
+                    th.start()
+                for th in ths:
+                    th.join()
+            finally:
+                sys.setswitchinterval(old)
+            return {"calls": count[0], "bad": bad}
         return _iso(call)
     if k == "seq":
         import ctypes
